@@ -183,4 +183,15 @@ func checkC16(c *Ctx, r *Result, tier string) {
 	}
 	n := checkLockPairing(c, r, lfs, "R16c", dfuncs)
 	r.Floor("R16c-acquisitions", n, 15)
+
+	// ---- R16d: no command handler blocks on a debugger lock it already holds ---------------------
+	isDbg := func(class string) bool { return strings.HasPrefix(class, "interpreter.ecalDebugger") }
+	nRe := checkReentrance(c, r, lfs, "R16d", isDbg)
+	nSelf := checkSelfDeadlock(c, r, lfs, "R16d", isDbg)
+	r.Extra["reentrance_call_sites"] = nRe
+	r.Extra["self_deadlock_call_sites"] = nSelf
+	r.Floor("R16d", nRe+nSelf, 10)
+
+	// ---- R16e: results are JSON-encodable ---------------------------------------------------------
+	c16JSONSafe(c, r, reach)
 }
